@@ -17,7 +17,7 @@ LEVEL = 'exploration'
 RULE = ('Inputs from four sources: PRNG-expanded uniform bytes; structure-aware mutations (bit flips, truncation, insertion, '
         'count/rdlength/label-length overwrites, slice duplication) of valid messages rendered by the independent encoder in '
         'three compression styles; a grammar of compression graphs (forward/backward pointer chains up to 4400 hops, cycles, '
-        'self/forward/header/rdata/beyond-end references, fan-in onto long label chains); and every string over '
+        'self/forward/header/rdata/beyond-end references, fan-in onto long label chains, names of 200-1000 characters carried in rdata / owner / question position and referred to again by bare pointers, suffix pointers and label+pointer); and every string over '
         '{00,01,3f,40,c0,0c,ff} up to a bounded length after two fixed headers (exhaustive block). Oracle: no exception, work '
         '(lines executed and Python calls inside zeroconf._protocol.incoming/_dns, counted with sys.monitoring) within a frozen '
         'budget, names <= 253 chars when valid, and equality with the strict independent decoder whenever that accepts and all '
@@ -305,6 +305,71 @@ def _graph_bytes(g: Dict[str, Any]) -> bytes:
                 out += bytes([0xC0 | ((tgt >> 8) & 0x3F), tgt & 0xFF])
             out += struct.pack('>HH', nd.get('qtype', 12), nd.get('qcls', 1))
         return bytes(out)
+    if kind == 'longname':
+        # a name whose text form has `total` characters (labels <= 63 bytes each), carried in the rdata of a PTR/SRV/NSEC record,
+        # as the owner of an A record or as a question name; later records refer to it: by a bare pointer to its start, by a
+        # pointer to one of its later labels (a shorter, possibly legal suffix) or by a label followed by a pointer (longer still).
+        # An over-long name must not come back through any of these doors either.
+        total, carrier = g['total'], g['carrier']
+        sizes: List[int] = []
+        left = total
+        while left > 0:
+            n = min(g.get('lab', 63), left - 1)
+            if n <= 0:
+                break
+            sizes.append(n)
+            left -= n + 1
+        name = b''.join(bytes([n]) + bytes([0x61 + (i % 26)]) * n for i, n in enumerate(sizes)) + b'\0'
+        out = bytearray(12)
+        nq = 0
+        label_offs: List[int] = []
+
+        def put_name_here() -> None:
+            base = len(out)
+            off = base
+            for n in sizes:
+                label_offs.append(off)
+                off += 1 + n
+            out.extend(name)
+
+        owner = b'\x01c\x05local\0'
+        if carrier == 'question':
+            put_name_here()
+            out += struct.pack('>HH', 12, 1)
+            nq = 1
+            n_an = 0
+        else:
+            n_an = 1
+            if carrier == 'owner':
+                put_name_here()
+                out += struct.pack('>HHLH', 1, 1, 120, 4) + b'\x0a\0\0\x01'
+            elif carrier == 'PTR':
+                out += owner + struct.pack('>HHLH', 12, 1, 120, len(name))
+                put_name_here()
+            elif carrier == 'SRV':
+                out += owner + struct.pack('>HHLH', 33, 1, 120, 6 + len(name)) + struct.pack('>HHH', 0, 0, 80)
+                put_name_here()
+            else:  # NSEC
+                out += owner + struct.pack('>HHLH', 47, 1, 120, len(name) + 3)
+                put_name_here()
+                out += b'\x00\x01\x40'
+        for ref in g['refs']:
+            where, skip, prefix = ref
+            tgt = label_offs[skip % len(label_offs)] if label_offs else 12
+            nm = (b'\x02zz' if prefix else b'') + bytes([0xC0 | (tgt >> 8), tgt & 0xFF])
+            if where == 'owner-a':
+                out += nm + struct.pack('>HHLH', 1, 1, 120, 4) + b'\x0a\0\0\x02'
+            elif where == 'owner-txt':
+                out += nm + struct.pack('>HHLH', 16, 1, 120, 1) + b'\0'
+            elif where == 'ptr-rdata':
+                out += owner + struct.pack('>HHLH', 12, 1, 120, len(nm)) + nm
+            elif where == 'srv-rdata':
+                out += owner + struct.pack('>HHLH', 33, 1, 120, 6 + len(nm)) + struct.pack('>HHH', 0, 0, 80) + nm
+            else:  # nsec-rdata
+                out += owner + struct.pack('>HHLH', 47, 1, 120, len(nm) + 3) + nm + b'\x00\x01\x40'
+            n_an += 1
+        struct.pack_into('>6H', out, 0, 0, 0x8400 if not nq else 0, nq, n_an, 0, 0)
+        return bytes(out)
     raise ValueError(kind)
 
 
@@ -376,7 +441,14 @@ def msg_case(draw, mutate: bool) -> Dict[str, Any]:
 
 @st.composite
 def graph_case(draw) -> Dict[str, Any]:
-    which = draw(st.sampled_from(['chain', 'chain', 'chain', 'fanin', 'fanin', 'nodes', 'nodes']))
+    which = draw(st.sampled_from(['chain', 'chain', 'chain', 'fanin', 'fanin', 'nodes', 'nodes', 'longname', 'longname']))
+    if which == 'longname':
+        g = {'kind': 'longname', 'total': draw(st.one_of(st.sampled_from([200, 252, 253, 254, 255, 256, 257, 300, 320, 1000]), st.integers(240, 270))),
+             'lab': draw(st.sampled_from([63, 63, 62, 31, 1])),
+             'carrier': draw(st.sampled_from(['PTR', 'PTR', 'SRV', 'NSEC', 'owner', 'question'])),
+             'refs': draw(st.lists(st.tuples(st.sampled_from(['owner-a', 'owner-txt', 'ptr-rdata', 'srv-rdata', 'nsec-rdata']),
+                                             st.sampled_from([0, 0, 0, 1, 2, 3]), st.booleans()).map(list), min_size=1, max_size=4))}
+        return {'src': 'graph', 'g': g}
     if which == 'chain':
         g = {'kind': 'chain',
              'n': draw(st.one_of(st.integers(1, 40), st.sampled_from([120, 127, 128, 129, 130, 250, 900, 990, 1000, 1100, 2200, 4400]))),
